@@ -25,6 +25,9 @@ SYMS_B = [(f, 0, s) for f in "FCLU" for s in (1, 2, 0, -1)]
 # a third alphabet: steps that are 1 modulo a power of two smaller than the 14-bit counter period (a gap of 1024, 4096, 8192 packets plus one)
 SYMS_C = [(f, 0, s) for f in "FCLU" for s in (1, 1025, 4097, 8193)]
 APIDS = (0x0A1, 0x2B2)
+# the two APIDs of a history rotate with its base count and secondary-header length: ordinary ones, both ends of the 11-bit range (either way
+# round), and the two middle values
+APID_PAIRS = ((0x0A1, 0x2B2), (2047, 0), (0, 2047), (1024, 1023))
 
 
 def build_history(hist, base, k, vary=False, skip=0, syms=None, bare=False):
@@ -44,7 +47,7 @@ def build_history(hist, base, k, vary=False, skip=0, syms=None, bare=False):
             hb = {"shflag": (i + 1) % 2, "type_": (i // 2) % 2, "version": (i * 3) % 8}
         else:
             hb = {"shflag": 1 if k else 0}
-        p = framing.mk_packet(data, apid=APIDS[a], seqflags=FLAGS[f], seqcount=counts[a], **hb)
+        p = framing.mk_packet(data, apid=APID_PAIRS[(base + k) % 4][a], seqflags=FLAGS[f], seqcount=counts[a], **hb)
         pkts.append(p)
         meta.append((f, a, counts[a], tag))
     if skip:
